@@ -42,6 +42,7 @@ template <class T, class A> struct QTraits<tbb::concurrent_queue<T, A>> {
     static long push(tbb::concurrent_queue<T, A>& q, long v) { T e(v); q.push(e); return RS_OK; }
     static long emplace(tbb::concurrent_queue<T, A>& q, long v) { q.emplace(v, InQ()); return RS_OK; }
     static long try_push(tbb::concurrent_queue<T, A>& q, long v) { return push(q, v); }
+    static void abort(tbb::concurrent_queue<T, A>&) {}
     static bool pop(tbb::concurrent_queue<T, A>& q, T& e) { return q.try_pop(e); }
     static void set_cap(tbb::concurrent_queue<T, A>&, long) {}
     static long size(tbb::concurrent_queue<T, A>& q) { return (long)q.unsafe_size(); }
@@ -50,7 +51,9 @@ template <class T, class A> struct QTraits<tbb::concurrent_bounded_queue<T, A>> 
     static constexpr bool bounded = true; using elem = T;
     static long push(tbb::concurrent_bounded_queue<T, A>& q, long v) { T e(v); q.push(e); return RS_OK; }
     static long emplace(tbb::concurrent_bounded_queue<T, A>& q, long v) { q.emplace(v, InQ()); return RS_OK; }
-    static long try_push(tbb::concurrent_bounded_queue<T, A>& q, long v) { T e(v); return q.try_push(e) ? RS_OK : RS_FULL; }
+    // odd values go through try_emplace, even ones through try_push (same contract)
+    static long try_push(tbb::concurrent_bounded_queue<T, A>& q, long v) { if (v & 1) return q.try_emplace(v, InQ()) ? RS_OK : RS_FULL; T e(v); return q.try_push(e) ? RS_OK : RS_FULL; }
+    static void abort(tbb::concurrent_bounded_queue<T, A>& q) { q.abort(); }
     static bool pop(tbb::concurrent_bounded_queue<T, A>& q, T& e) { q.pop(e); return true; }
     static void set_cap(tbb::concurrent_bounded_queue<T, A>& q, long c) { if (c >= 0) q.set_capacity(c); }
     static long size(tbb::concurrent_bounded_queue<T, A>& q) { return (long)q.size(); }
@@ -78,6 +81,8 @@ struct Outcome {
     std::vector<Op> ops;            // everything, including helper and drain operations of the coordinator
     std::vector<long> drained;
     int helper_ops = 0;
+    bool reported = false;          // the violation was already handed to Result (the scenario could still wedge afterwards)
+    long try_push_while_pop_blocked = 0, try_push_full_while_pop_blocked = 0;
     std::string fail_key, fail_detail;
     void fail(const std::string& k, const std::string& d) { if (fail_key.empty()) { fail_key = k; fail_detail = d; } }
 };
@@ -107,7 +112,7 @@ struct Engine {
         if (p.arm_ctor[0] >= 0 || p.arm_ctor[1] >= 0) { ctor_inj().disarm(); ctor_inj().arm(0, p.arm_ctor[0]); ctor_inj().arm(1, p.arm_ctor[1]); }
         if (p.arm_alloc >= 0) { alloc_inj().disarm(); alloc_inj().arm(0, p.arm_alloc); }
         std::atomic<int> nblk_pop{0}, nblk_push{0};
-        std::atomic<long> opcount{0};
+        std::atomic<long> opcount{0}, tp_blocked{0};
         pool.start(n, [&](int t) {
             Log& lg = logs[t];
             for (const PlanOp& o : p.ops[t]) {
@@ -116,7 +121,11 @@ struct Engine {
                 long r;
                 if (Tr::bounded && (o.kind == K_POP)) { BlockMark b1(nblk_pop), b2(hc.blocked_pop); r = do_op(q, o.kind, o.val); }
                 else if (Tr::bounded && (o.kind == K_PUSH || o.kind == K_EMPLACE)) { BlockMark b1(nblk_push), b2(hc.blocked_push); r = do_op(q, o.kind, o.val); }
-                else r = do_op(q, o.kind, o.val);
+                else {
+                    bool negstate = Tr::bounded && o.kind == K_TRY_PUSH && nblk_pop.load(std::memory_order_relaxed) > 0;
+                    r = do_op(q, o.kind, o.val);
+                    if (negstate) tp_blocked.fetch_add(1, std::memory_order_relaxed);
+                }
                 lg.end(clk, i, r);
                 if (is_push(o.kind)) { if (r == RS_OK) hc.pushed.fetch_add(1, std::memory_order_relaxed); }
                 else if (r >= 0) hc.popped.fetch_add(1, std::memory_order_relaxed);
@@ -125,7 +134,7 @@ struct Engine {
             }
         });
         // helper loop
-        long helper_val = 700000; int sp = 0; long last_ops = -1; int stable = 0;
+        long helper_val = 700000; int sp = 0; long last_ops = -1; int stable = 0; bool helper_broken = false;
         while (!pool.done()) {
             relax(sp);
             if (!Tr::bounded) continue;
@@ -137,19 +146,43 @@ struct Engine {
             if (++stable < 40) continue;                       // same picture for a while: everybody left is inside a blocking call
             stable = 0;
             long inside = hc.pushed.load(std::memory_order_relaxed) - hc.popped.load(std::memory_order_relaxed);
-            if (out.helper_ops >= p.max_help) continue;                // give up helping: the watchdog decides
+            if (out.helper_ops >= p.max_help) continue;                // cannot happen with a working queue (every help releases a call); the watchdog decides
+            // The helping operation itself is judged: everybody else is finished or blocked, so the abstract content is known.
+            // If it fails although it must succeed, that is reported at once; the blocked calls are then released with abort()
+            // (user_abort is a no-op in the model) so that the scenario still ends.
+            auto broken = [&](const char* key, const std::string& what) {
+                out.fail(key, what);
+                if (!out.reported) {
+                    out.reported = true;
+                    std::vector<Op> sofar; for (int t = 0; t <= n; t++) sofar.insert(sofar.end(), logs[t].ops.begin(), logs[t].ops.end());
+                    Json j; j.obj(); j.key("plan").raw(plan_json(p)); j.key("history_so_far[thread,op,arg,result,call,ret]").raw(history_json(sofar, kind_names)); j.end_obj();
+                    result().violation(cls_key(p.cls, key), what + "\n" + rings_dump(6), j.s);
+                }
+            };
+            if (helper_broken) { Tr::abort(q); out.helper_ops++; progress(); continue; }
             if (bp > 0 && bu == 0 && inside <= 0) {            // pops blocked on an (abstractly) empty queue: feed one value
                 Log& lg = logs[me]; size_t i = lg.begin(clk, K_TRY_PUSH, helper_val); long r = do_op(q, K_TRY_PUSH, helper_val); lg.end(clk, i, r);
+                out.try_push_while_pop_blocked++;
                 if (r == RS_OK) { hc.pushed.fetch_add(1, std::memory_order_relaxed); progress(); }
+                else if (r == RS_FULL && p.cap != 0) {
+                    out.try_push_full_while_pop_blocked++;
+                    helper_broken = true;
+                    broken("try_push-false-not-full", "try_push/try_emplace of the coordinator returned false while " + std::to_string(bp) + " pop(s) were blocked, every other thread had finished, and completed pushes - completed pops = " + std::to_string(inside) + " (capacity " + std::to_string(p.cap) + "): the queue was empty (negative-size state) during the whole call");
+                }
                 helper_val++; out.helper_ops++;
             } else if (bu > 0 && bp == 0 && p.cap >= 0 && inside >= p.cap) {   // pushes blocked on a full queue: take one value out
                 Log& lg = logs[me]; size_t i = lg.begin(clk, K_TRY_POP, 0); long r = do_op(q, K_TRY_POP, 0); lg.end(clk, i, r);
                 if (r >= 0) { hc.popped.fetch_add(1, std::memory_order_relaxed); progress(); }
+                else if (r == RS_EMPTY && p.cap > 0) {
+                    helper_broken = true;
+                    broken("empty-with-item-inside", "try_pop of the coordinator reported empty while " + std::to_string(bu) + " push(es) were blocked on a full queue (completed pushes - completed pops = " + std::to_string(inside) + ", capacity " + std::to_string(p.cap) + ") and nobody else was running");
+                }
                 out.helper_ops++;
             }
             // otherwise: a blocked call that has what it waits for; it has to finish on its own
         }
         pool.wait();
+        out.try_push_while_pop_blocked += tp_blocked.load();
         ctor_inj().disarm(); alloc_inj().disarm();
         // quiescent drain by the coordinator (part of the history)
         for (;;) {
